@@ -39,6 +39,8 @@ func (c *vclock) hasPending() bool {
 }
 
 func init() {
+	// the local time zone is UTC (the zero Location): initLocal would read TZ and /etc/localtime
+	externals["time.initLocal"] = func(fr *frame, args []value) value { return nil }
 	externals["time.Now"] = func(fr *frame, args []value) value { return fr.i.timeValue(fr.i.clock.now) }
 	externals["time.runtimeNano"] = func(fr *frame, args []value) value { return fr.i.clock.now }
 	externals["time.now"] = func(fr *frame, args []value) value {
